@@ -1,5 +1,6 @@
 import SaphyrVerif.Basic.Text
 import SaphyrVerif.Model.Scalars
+import SaphyrVerif.Model.Float
 /-!
 # Specification side of C12: a YAML *reader* for single scalars
 
@@ -158,11 +159,17 @@ inductive Kind where
   | plain | dq | sq | literal | folded | other
 deriving DecidableEq, Repr
 
+/-- the end of the text, or a blank / break / NUL -/
+def endOrBlankZ (r : List Char) : Bool :=
+  match r with
+  | [] => true
+  | c :: _ => isBlankOrBreakZ c
+
 /-- `---` / `...` followed by blank, break or end, at column 0 -/
 def isDocMarker (t : List Char) : Bool :=
   match t with
-  | '-' :: '-' :: '-' :: r => (match r with | [] => true | c :: _ => isBlankOrBreakZ c)
-  | '.' :: '.' :: '.' :: r => (match r with | [] => true | c :: _ => isBlankOrBreakZ c)
+  | a :: b :: c :: r =>
+    ((a == '-' && b == '-' && c == '-') || (a == '.' && b == '.' && c == '.')) && endOrBlankZ r
   | _ => false
 
 /-- The scanner's dispatch on the first character `c` of a node (next character `nc`), in flow or block
@@ -464,14 +471,25 @@ def readNode (p : Pos) (s : List Char) (col0 : Bool) (parent : Int) : Option (St
         if onlyTrailers rest then some (if literal then .literal else .folded, v) else none
     | _ => none
 
-/-- Read the single scalar of a document of shape `p`: style and value. A directive line needs an
-explicit `---` after it; documents with directives are outside the dialect (the reader claims nothing). -/
-def readDoc (p : Pos) (doc : List Char) : Option (Style × List Char) :=
-  let t := stripBom doc
-  -- U+0000 ends the stream for the scanner: documents containing it are outside the dialect
-  match (if t.head? == some '%' || doc.any isNul then none else stripOpening p t) with
+/-- the document proper (after the stream-start normalisation): no directive, no U+0000 (it ends the
+stream for the scanner: such documents are outside the dialect) -/
+def readDocBody (p : Pos) (t : List Char) : Option (Style × List Char) :=
+  match (if t.head? == some '%' || t.any isNul then none else stripOpening p t) with
   | none => none
   | some (s, col0, parent) => readNode p s col0 parent
+
+/-- the one directive preamble the writer produces: `%YAML 1.2`, then the document start marker it
+requires, each on its own line -/
+def yamlPreamble : List Char := "%YAML 1.2\n---\n".toList
+
+/-- Read the single scalar of a document of shape `p`: style and value. A byte-order mark at the start
+of the stream is not content; the only directive inside the dialect is the exact preamble above (any
+other directive: the reader claims nothing). -/
+def readDoc (p : Pos) (doc : List Char) : Option (Style × List Char) :=
+  let t := stripBom doc
+  readDocBody p (match stripPrefix? yamlPreamble t with
+                 | some r => r
+                 | none => t)
 
 /-! ## `resolve`: the type a plain scalar denotes for this crate's schema-less reader -/
 
@@ -479,42 +497,9 @@ inductive Resolved where
   | str | null | bool | int | float
 deriving DecidableEq, Repr
 
-def isDigitC (c : Char) : Bool := 48 ≤ c.toNat && c.toNat ≤ 57
-
-/-- the grammar of Rust's `f64::from_str` (external; exercised by the differential):
-`[+-]? (inf | infinity | nan | digits [. digits*] [exp] | . digits [exp])`, `exp = [eE] [+-]? digits` -/
-def isRustFloat (s : List Char) : Bool :=
-  let r := match s with
-    | '+' :: t => t
-    | '-' :: t => t
-    | _ => s
-  let low := lowerAscii r
-  if low == "inf".toList || low == "infinity".toList || low == "nan".toList then true
-  else
-    let expOk (e : List Char) : Bool :=
-      match e with
-      | [] => true
-      | c :: t =>
-        (c == 'e' || c == 'E') &&
-          (let d := match t with
-            | '+' :: u => u
-            | '-' :: u => u
-            | _ => t
-           !d.isEmpty && d.all isDigitC)
-    let intPart := r.takeWhile isDigitC
-    let rest := r.dropWhile isDigitC
-    match rest with
-    | '.' :: t =>
-      let frac := t.takeWhile isDigitC
-      (!intPart.isEmpty || !frac.isEmpty) && expOk (t.dropWhile isDigitC)
-    | _ => !intPart.isEmpty && expOk rest
-
-/-- `parse_yaml12_float` accepts the text (after `trim`) -/
-def isYamlFloatText (s : List Char) : Bool :=
-  let t := trim s
-  let low := lowerAscii t
-  low == ".nan".toList || low == "+.nan".toList || low == "-.nan".toList ||
-  low == ".inf".toList || low == "+.inf".toList || low == "-.inf".toList || isRustFloat t
+/-- `parse_yaml12_float::<f64>` accepts the text (the crate's float reader, modelled in `Model/Float.lean`:
+trim, the `.nan` / `.inf` spellings, else the grammar of Rust's `f64::from_str`) -/
+def isYamlFloatText (s : List Char) : Bool := (Float.parseYaml12Float 64 s).isSome
 
 /-- Would the plain scalar `s` be read as something else than a string (the crate's `maybe_not_string`
 order: null, bool, integer, float)? -/
